@@ -48,7 +48,3 @@ Definition bLabels := ObLabels Z Z.
 Definition bFlags := ObFlags Z Z.
 Definition bUnit := ObUnit Z Z.
 Definition bErr := ObErr Z Z.
-
-(* is the history inside the domain of the refinement theorem C17_bus_refines_spec? *)
-Definition z_dom (content : list (Z * (Z * Z))) (t0 : Z) (mp : option Z) (tbl : list (Z * Z)) (ops : list (op Z)) : bool :=
-  s_dom Z Z Z.eqb Z.leb (zkey_tbl tbl) (z_store content t0) (s_open Z Z (z_store content t0) mp) ops.
